@@ -9,14 +9,16 @@
        objects the user put in two places.  Theorems (Proofs/HeapProofs.v): construct / parse allocate only fresh cells; after
        EVERY history two live packets have in common only what hangs below an object of `shared` (nothing at all if the user
        never hands over an object of a live packet); an operation on one packet leaves every other live packet's tree as it
-       was unless the written cell hangs below a shared object; serializing writes no cell.  The model's aliasing behaviour is
+       was unless the written cell hangs below a shared object; serializing writes no cell; and (Proofs/HeapAdequacy.v) without user
+       sharing the object world shows after every history exactly what the world of plain values (Model/HeapSpec.v) shows --
+       the value model used by every other property is adequate for live, mutable packets.  The model's aliasing behaviour is
        tied to bisturi by the identity correspondence of harness/props/C13.py (which (packet, path) pairs are one object
        after every operation of a history) and by the template kernels of init / Ref / Prototype.
    PARTIAL: real thread interleavings (bytecode level, under the GIL) are not expressible in either model; they are
    exercised on the implementation only.  Finding D8 (the dstate itself) is a KNOWN-FINDING; D9 was repaired. *)
 From Coq Require Import ZArith List Bool.
 From Bisturi Require Import Base.Bytes Kernel.Frag Model.Value Model.Decl Model.Unpack Model.Pack Model.Codegen Model.World
-                            Model.Init Model.Canon Model.Heap Proofs.WorldProofs Proofs.HeapProofs.
+                            Model.Init Model.Canon Model.Heap Model.HeapSpec Proofs.WorldProofs Proofs.HeapProofs Proofs.HeapAdequacy.
 Import ListNotations. Open Scope Z_scope.
 
 (* parsing writes no class-level state (every regex delimiter kept in the value) ... *)
@@ -101,7 +103,34 @@ Example C13_separated_alone_not_inductive :
   ~ separated cut_world' /\ ~ tree_like cut_world.
 Proof. exact cut_counterexample. Qed.
 
+(* ---- (c) the value model is adequate for live, mutable packets: as long as the user puts no object of a live packet into
+   a second place, the object world and the world of plain tree values (Model/HeapSpec.v: an assignment is a functional
+   update) show the same live names and the same tree for every live packet after EVERY history ... *)
+Theorem C13_adequacy_history : forall host ct ops,
+  forallb op_no_share ops = true ->
+  agrees (fold_left (w_run1 host ct) ops w_empty) (fold_left (f_run1 host ct) ops []).
+Proof. exact adequacy_history. Qed.
+(* ... and every operation raises in one world iff it raises in the other *)
+Theorem C13_adequacy_raises : forall host ct ops o,
+  forallb op_no_share ops = true -> op_no_share o = true ->
+  let w := fold_left (w_run1 host ct) ops w_empty in
+  let fw := fold_left (f_run1 host ct) ops [] in
+  w_step host ct w o = None <-> f_step host ct fw o = None.
+Proof. exact adequacy_raises. Qed.
+(* one step, from any well-formed, unshared, plain world *)
+Theorem C13_adequacy_step : forall host ct w fw o,
+  w_valid w -> tree_like w -> shared w = [] -> h_plain (hp w) -> agrees w fw -> op_no_share o = true ->
+  match w_step host ct w o, f_step host ct fw o with
+  | Some w', Some fw' => agrees w' fw'
+  | None, None => True
+  | _, _ => False
+  end.
+Proof. exact adequacy_step. Qed.
+
 Print Assumptions C13_parse_writes_nothing.
+Print Assumptions C13_adequacy_history.
+Print Assumptions C13_adequacy_raises.
+Print Assumptions C13_adequacy_step.
 Print Assumptions C13_alloc_fresh.
 Print Assumptions C13_alloc_read.
 Print Assumptions C13_history_separated.
